@@ -101,6 +101,28 @@ def check_open_events(events, images, sizes, rpc_req, out):
             out.append(harness.disc("whole-image-fetched", "open_alos2", "chunked reads", cats[:2], image=name))
 
 
+NOTES = __import__("collections").Counter()
+
+
+def lazy_control(grid):
+    """the row-id grid behind a trivially correct lazily indexed BASIC backend"""
+    import xarray as xr
+    from xarray.backends import BackendArray
+    from xarray.core import indexing
+
+    arr = np.asarray(grid.values)
+
+    class Control(BackendArray):
+        def __init__(self):
+            self.shape = arr.shape
+            self.dtype = arr.dtype
+
+        def __getitem__(self, key):
+            return indexing.explicit_indexing_adapter(key, self.shape, indexing.IndexingSupport.BASIC, lambda k: arr[k])
+
+    return xr.DataArray(xr.Variable(grid.dims, indexing.LazilyIndexedArray(Control())), coords=grid.coords)
+
+
 def run_case(case):
     import xarray as xr
 
@@ -129,11 +151,21 @@ def run_case(case):
             np.repeat(np.arange(lines)[:, None], case["pixels"], axis=1), dims=da.dims,
             coords={k: v for k, v in da.coords.items()},
         ).assign_coords(vf_rowid=("rows", np.arange(lines)))
+        control = lazy_control(grid)
         for ops in case["selections"]:
             # the selected line span, independent of what happens on the pixel axis
             sel_rows, err = harness.guard(lambda: np.atleast_1d(np.asarray(c02.run_ops(grid, ops).coords["vf_rowid"].values)))
             if err is not None:
                 continue  # not a selection xarray accepts in memory
+            # domain guard (as in C02): on a trivially correct lazily indexed backend xarray must
+            # produce what it produces in memory; otherwise the rows it asks the backend for are
+            # xarray's own doing (e.g. isel(rows=slice(-2, None, -1)) on a one-line image is empty
+            # in memory but xarray's lazy decomposition requests line 0 from ANY backend)
+            ctl, err = harness.guard(lambda: np.asarray(c02.run_ops(control, ops).values))
+            mem = np.asarray(c02.run_ops(grid, ops).values)
+            if err is not None or ctl.shape != mem.shape or not np.array_equal(ctl, mem):
+                NOTES["out-of-domain:xarray-limited"] += 1
+                continue
             vtrace.STORE.clear()
             _, err = harness.guard(lambda: np.asarray(c02.run_ops(da, ops).values))
             events = vtrace.STORE.snapshot()
